@@ -30,13 +30,13 @@ def check(ctx):
     V.need(wl, "while name in Names loop")
     dup = [n for n in cfg.nodes if n.kind == "test" and isinstance(n.ast, ast.If) and src(n.ast.test).replace("(", "").replace(")", "") == "name in self.__class__.Names"]
     V.need(dup, "elif name in Names test")
-    empt = V.need(V.tests(lambda t: src(t) == "not name"), "`if not name` test")
+    empt = V.need(V.ptests("not name"), "`if not name` test")
     raises = [n for n in cfg.nodes if n.kind == "raise"]
     ok = any(V.dominated_by_edge([r], dup[0], "T") for r in raises)
     # every path to the registration passes either the while-loop exit (F edge) or the dup test F edge
     r = cfg.reachable(cfg.entry.id, removed_edges=cfg.edges_from(wl[0].id, "F") + cfg.edges_from(dup[0].id, "F"))
     ok = ok and not ({x.id for x in reg} & r)
-    ok = ok and V.dominated_by_edge([wl[0]], empt[0], "T") and V.dominated_by_edge([dup[0]], empt[0], "F")
+    ok = ok and V.under([wl[0]], empt[0]) and V.under([dup[0]], empt[0], holds=False)
     ctx.check(ok, "T1-unique", ri, "registration dominated by `while name in Names` exit or `name in Names => raise`",
               "an instance must never be registered under a name that is already taken: explicit duplicates are "
               "rejected, generated names are extended until free")
